@@ -309,42 +309,65 @@ func genTotalCase(r *Rng) totalCase {
 	return c
 }
 
-// The totality search runs every case in a child process (`hx c03-child`): a hang or an
-// out-of-memory loop in the library kills only the child; the parent records the case it was
-// working on and restarts the child after it.
-func c03Child(ctx *Ctx, from, to int) {
-	// address-space limit so that an allocation loop dies quickly instead of taking the host down
+// caseOut is what one isolated case reports back to the parent process
+type caseOut struct {
+	Key        string         `json:"key"`
+	Nontrivial bool           `json:"nontrivial"`
+	Tags       []string       `json:"tags"`
+	Counts     map[string]int `json:"counts,omitempty"`
+	Sample     interface{}    `json:"sample,omitempty"`
+	Viol       *Violation     `json:"viol,omitempty"`
+}
+
+// isolated stages: every case runs in a child process (`hx <stage>-child`) under an address-space
+// limit; a hang or an allocation loop in the library kills only the child, the parent records the
+// case it was working on (via onDeath) and restarts the child after it.
+type isoStage struct {
+	name     string
+	needOrc  bool
+	caseFn   func(ctx *Ctx, o *Oracle, i int) caseOut
+	onDeath  func(ctx *Ctx, i int, how string) *Violation
+}
+
+var isoStages = map[string]*isoStage{}
+
+func isoChild(st *isoStage, ctx *Ctx, from, to int) {
 	var lim syscall.Rlimit
 	lim.Cur, lim.Max = 6<<30, 6<<30
 	syscall.Setrlimit(syscall.RLIMIT_AS, &lim)
 	w := bufio.NewWriter(os.Stdout)
+	var o *Oracle
+	if st.needOrc {
+		o = StartOracle(ctx.Oracle)
+	}
 	for i := from; i < to; i++ {
-		r := NewRng(ctx.Seed, "c03", i)
-		c := genTotalCase(r)
 		fmt.Fprintf(w, "START %d\n", i)
 		w.Flush()
-		fault := runTotal(c)
-		if fault == "timeout" {
-			// the stuck goroutine cannot be stopped: give up this process
+		done := make(chan caseOut, 1)
+		go func() { done <- st.caseFn(ctx, o, i) }()
+		select {
+		case out := <-done:
+			b, _ := json.Marshal(out)
+			fmt.Fprintf(w, "DONE %d %s\n", i, b)
+			w.Flush()
+		case <-time.After(25 * time.Second):
 			fmt.Fprintf(w, "HANG %d\n", i)
 			w.Flush()
 			os.Exit(7)
 		}
-		b, _ := json.Marshal(fault)
-		fmt.Fprintf(w, "DONE %d %s\n", i, b)
-		w.Flush()
 	}
 }
 
-func init() {
-	stages["c03-child"] = func(ctx *Ctx, cnt func(q, t int) int, replay string) Result {
-		c03Child(ctx, c03From, c03To)
+func registerIso(st *isoStage, rule string, quick, thorough int) {
+	isoStages[st.name] = st
+	stages[st.name+"-child"] = func(ctx *Ctx, cnt func(q, t int) int, replay string) Result {
+		isoChild(st, ctx, c03From, c03To)
 		os.Exit(0)
 		return Result{}
 	}
-	stages["c03-search"] = func(ctx *Ctx, cnt func(q, t int) int, replay string) Result {
-		col := NewCollector("C03", "search", "every exported operation on degenerate / adversarial inputs (nil and empty sets, empty, 1- and 2-point paths, repeated points, all-collinear, all-horizontal, zero-area, coincident polygons, empty or inverted rectangles, zero/negative/huge deltas, out-of-range enum values, NoClip), each under recover, a watchdog and an address-space limit in a child process; Execute* must return true; non-trivial = at least one path with ≥ 1 point reaches the callee; distinct by input")
-		n := cnt(60000, 5000000)
+	stages[st.name] = func(ctx *Ctx, cnt func(q, t int) int, replay string) Result {
+		col := NewCollector(strings.ToUpper(st.name[:3]), "search", rule)
+		n := cnt(quick, thorough)
 		w := ctx.Workers
 		chunk := (n + w - 1) / w
 		var wg sync.WaitGroup
@@ -359,11 +382,11 @@ func init() {
 				defer wg.Done()
 				cur := from
 				for cur < to && !col.Full() {
-					cmd := exec.Command(self, "c03-child", "-seed", fmt.Sprint(ctx.Seed), "-tier", ctx.Tier, "-from", fmt.Sprint(cur), "-to", fmt.Sprint(to))
+					cmd := exec.Command(self, st.name+"-child", "-seed", fmt.Sprint(ctx.Seed), "-tier", ctx.Tier, "-oracle", ctx.Oracle, "-from", fmt.Sprint(cur), "-to", fmt.Sprint(to))
 					outp, _ := cmd.StdoutPipe()
 					cmd.Start()
 					sc := bufio.NewScanner(outp)
-					sc.Buffer(make([]byte, 1<<20), 1<<20)
+					sc.Buffer(make([]byte, 1<<24), 1<<24)
 					started := -1
 					lines := make(chan string)
 					go func() {
@@ -386,26 +409,25 @@ func init() {
 								fmt.Sscanf(ln, "START %d", &idx)
 								started = idx
 							case strings.HasPrefix(ln, "HANG "):
-								dead = "timeout (no return within 20 s)"
+								dead = "timeout (no return within 25 s)"
 							case strings.HasPrefix(ln, "DONE "):
-								var fj string
 								fmt.Sscanf(ln, "DONE %d", &idx)
-								json.Unmarshal([]byte(ln[strings.Index(ln[5:], " ")+6:]), &fj)
-								c := genTotalCase(NewRng(ctx.Seed, "c03", idx))
-								col.Eval(fmt.Sprint(c), nEdges(c.A)+nEdges(c.B) > 0, "fn="+c.Fn)
-								if idx < 3 {
-									col.Sample(c)
+								var out caseOut
+								json.Unmarshal([]byte(ln[strings.Index(ln[5:], " ")+6:]), &out)
+								col.Eval(out.Key, out.Nontrivial, out.Tags...)
+								for k, v := range out.Counts {
+									col.AddN(k, v)
 								}
-								if fj != "" {
-									kind := "fault:" + c.Fn
-									if !col.KindFull(kind) {
-										col.Violate(Violation{Property: "C03", Kind: kind, Signature: c03Sig(c), Detail: c.Fn + ": " + fj, Case: c, Stream: "c03", Index: idx, Seed: ctx.Seed})
-									}
+								if out.Sample != nil {
+									col.Sample(out.Sample)
+								}
+								if out.Viol != nil && !col.KindFull(out.Viol.Kind) {
+									col.Violate(*out.Viol)
 								}
 								cur = idx + 1
 								started = -1
 							}
-						case <-time.After(40 * time.Second):
+						case <-time.After(60 * time.Second):
 							dead = "timeout (child unresponsive)"
 							cmd.Process.Kill()
 							break loop
@@ -417,11 +439,9 @@ func init() {
 						if dead == "" {
 							dead = "process died (fatal error / out of memory)"
 						}
-						c := genTotalCase(NewRng(ctx.Seed, "c03", started))
-						col.Eval(fmt.Sprint(c), true, "fn="+c.Fn, "killed")
-						kind := "fault:" + c.Fn
-						if !col.KindFull(kind) {
-							col.Violate(Violation{Property: "C03", Kind: kind, Signature: c03Sig(c), Detail: c.Fn + ": " + dead, Case: c, Stream: "c03", Index: started, Seed: ctx.Seed})
+						col.Eval(fmt.Sprint("dead", started), true, "killed")
+						if v := st.onDeath(ctx, started, dead); v != nil && !col.KindFull(v.Kind) {
+							col.Violate(*v)
 						}
 						cur = started + 1
 					} else if cur < to && dead != "" {
@@ -433,6 +453,27 @@ func init() {
 		wg.Wait()
 		return col.Finish()
 	}
+}
+
+func init() {
+	registerIso(&isoStage{name: "c03-search",
+		caseFn: func(ctx *Ctx, o *Oracle, i int) caseOut {
+			c := genTotalCase(NewRng(ctx.Seed, "c03", i))
+			out := caseOut{Key: fmt.Sprint(c), Nontrivial: nEdges(c.A)+nEdges(c.B) > 0, Tags: []string{"fn=" + c.Fn}}
+			if i < 3 {
+				out.Sample = c
+			}
+			if fault := runTotal(c); fault != "" {
+				out.Viol = &Violation{Property: "C03", Kind: "fault:" + c.Fn, Signature: c03Sig(c), Detail: c.Fn + ": " + fault, Case: c, Stream: "c03", Index: i, Seed: ctx.Seed}
+			}
+			return out
+		},
+		onDeath: func(ctx *Ctx, i int, how string) *Violation {
+			c := genTotalCase(NewRng(ctx.Seed, "c03", i))
+			return &Violation{Property: "C03", Kind: "fault:" + c.Fn, Signature: c03Sig(c), Detail: c.Fn + ": " + how, Case: c, Stream: "c03", Index: i, Seed: ctx.Seed}
+		}},
+		"every exported operation on degenerate / adversarial inputs (nil and empty sets, empty, 1- and 2-point paths, repeated points, all-collinear, all-horizontal, zero-area, coincident polygons, empty or inverted rectangles, zero/negative/huge deltas, out-of-range enum values, NoClip), each under recover, a watchdog and an address-space limit in a child process; Execute* must return true; non-trivial = at least one path with ≥ 1 point reaches the callee; distinct by input",
+		60000, 5000000)
 	replays["c03-search"] = func(ctx *Ctx, o *Oracle, raw json.RawMessage) *Violation {
 		var c totalCase
 		if err := json.Unmarshal(raw, &c); err != nil {
